@@ -31,16 +31,21 @@ func c03Value(tag string) (val interface{}, ok bool, ref interface{}) {
 // VF_C03_Document: root object with "o" (object), "arr" (array ["a0","a1"]) and "p" (primitive).
 func VF_C03_Document() {
 	d := vfNewPlainDoc()
-	_, e1 := d.PutToObject("o", map[string]interface{}{"x": "ox"})
+	_, e1 := d.PutToObject("o", map[string]interface{}{"x": "ox", "y": map[string]interface{}{"z": map[string]interface{}{"w": "deep"}}})
 	_, e2 := d.PutToObject("arr", []interface{}{"a0", "a1"})
 	_, e3 := d.PutToObject("p", "pv")
 	vf.Assert(e1 == nil && e2 == nil && e3 == nil, "C03 valid puts succeed")
-	ref := map[string]interface{}{"o": map[string]interface{}{"x": "ox"}, "arr": []interface{}{"a0", "a1"}, "p": "pv"}
+	ref := map[string]interface{}{"o": map[string]interface{}{"x": "ox", "y": map[string]interface{}{"z": map[string]interface{}{"w": "deep"}}}, "arr": []interface{}{"a0", "a1"}, "p": "pv"}
 	vf.Assert(jsonDeepEq(d.GetValue(), ref), "C03 value matches the reference after the setup")
 	// a child document that gets deleted: calls on it must be refused afterwards
 	var stale Document
-	if vf.Choice("stale-child", 2) == 1 {
+	if sc := vf.Choice("stale-child", 4); sc > 0 {
+		// a handle on the deleted container itself, on its child, or on its grandchild
 		stale, _ = d.GetFromObject("o")
+		for i := 1; i < sc; i++ {
+			stale, _ = stale.GetFromObject([]string{"y", "z"}[i-1])
+		}
+		vf.Assert(stale != nil, "C03 handle obtained")
 		_, e := d.DeleteInObject("o")
 		vf.Assert(e == nil, "C03 valid delete succeeds")
 		delete(ref, "o")
@@ -140,6 +145,7 @@ func VF_C03_Document() {
 				_, e := stale.PutToObject("late", "z")
 				err = toErr(e)
 				valid = false
+				vf.Assert(stale.IsGarbage(), "C03 a container below a deleted container is garbage")
 			case 8: // GetFromObject
 				key := []string{"p", "missing"}[vf.Choice("key", 2)]
 				c, e := d.GetFromObject(key)
